@@ -63,6 +63,7 @@ func runRequests(r *common.Run, sk *sink, caseNo int, rng *rand.Rand, seed int64
 	}
 	kind := []cluster.SMKind{cluster.Regular, cluster.Regular, cluster.Concurrent, cluster.OnDisk}[rng.Intn(4)]
 	winDelay := time.Duration(rng.Intn(3)) * time.Millisecond
+	preVote := rand.New(rand.NewSource(seed^0x9e7)).Intn(2) == 0
 	var cancelAtApply sync.Map
 	var slowReplayHost int32 // host index + 1 whose state machine dwells in every Update (0: none)
 	fmt.Printf("requests case %d notifyCommit %v store %s sm %s windowDelay %v\n", caseNo, notify, store, kind, winDelay)
@@ -236,8 +237,11 @@ func runRequests(r *common.Run, sk *sink, caseNo int, rng *rand.Rand, seed int64
 		if forced != 0 && os.Getenv("VERIF_DEBUG") != "" {
 			fmt.Fprintf(os.Stderr, "ACCEPT %d id %d to %d\n", time.Now().UnixNano()/1000, rec.id, toMs)
 		}
-		if rec.kind != "querylog" {
-			rec.acceptTick = c.Ticks(shardID, uint64(h.Index+1))
+		// (a log query has no deadline; raft answers it locally in its next step, whatever the
+		// replica's role: timeout 0 + the same slack)
+		rec.acceptTick = c.Ticks(shardID, uint64(h.Index+1))
+		if rec.kind == "querylog" {
+			rec.timeoutMs = 0
 		}
 		addRec(rec)
 		watchers.Add(1)
@@ -247,6 +251,7 @@ func runRequests(r *common.Run, sk *sink, caseNo int, rng *rand.Rand, seed int64
 	for _, h := range c.Hosts {
 		cfg := cluster.ShardConfig(shardID, uint64(h.Index+1))
 		cfg.SnapshotEntries, cfg.CompactionOverhead = 50, 5
+		cfg.PreVote = preVote
 		if err := h.StartReplica(members, false, kind, cfg); err != nil {
 			r.Inconclusive(fmt.Sprintf("case %d: %v", caseNo, err))
 			c.StopAll()
@@ -352,6 +357,18 @@ func runRequests(r *common.Run, sk *sink, caseNo int, rng *rand.Rand, seed int64
 		}(g)
 	}
 	// operator
+	type opEvent struct {
+		What  string `json:"what"`
+		Host  int    `json:"host"`
+		Stamp int64  `json:"stamp"`
+	}
+	var evMu sync.Mutex
+	var events []opEvent
+	logEvent := func(what string, host int) {
+		evMu.Lock()
+		events = append(events, opEvent{what, host, c.Clock.Now()})
+		evMu.Unlock()
+	}
 	stopsUnderLoad := 0
 	steps := 8 + rng.Intn(6)
 	for i := 0; i < steps; i++ {
@@ -367,6 +384,7 @@ func runRequests(r *common.Run, sk *sink, caseNo int, rng *rand.Rand, seed int64
 			}
 			cfg := cluster.ShardConfig(shardID, uint64(h.Index+1))
 			cfg.SnapshotEntries, cfg.CompactionOverhead = 50, 5
+			cfg.PreVote = preVote
 			// the other clients pause: the short incarnation's proposals are the tail of the log
 			atomic.StoreInt32(&pauseFlag, 1)
 			time.Sleep(30 * time.Millisecond)
@@ -377,10 +395,12 @@ func runRequests(r *common.Run, sk *sink, caseNo int, rng *rand.Rand, seed int64
 				_, _ = nh.SyncRequestSnapshot(ctx, shardID, dragonboat.SnapshotOption{})
 				cancel()
 			}
+			logEvent("double-restart: StopShard #1 called", h.Index)
 			if nh.StopShard(shardID) != nil {
 				atomic.StoreInt32(&pauseFlag, 0)
 				break
 			}
+			logEvent("double-restart: StopShard #1 returned", h.Index)
 			restartNow := func() bool {
 				// StopShard returns before the replica is fully unloaded
 				for try := 0; try < 100; try++ {
@@ -403,9 +423,12 @@ func runRequests(r *common.Run, sk *sink, caseNo int, rng *rand.Rand, seed int64
 			}
 			time.Sleep(time.Duration(60+rng.Intn(60)) * time.Millisecond)
 			atomic.StoreInt32(&slowReplayHost, int32(h.Index)+1)
+			logEvent("double-restart: StopShard #2 called", h.Index)
 			if nh.StopShard(shardID) == nil {
+				logEvent("double-restart: StopShard #2 returned", h.Index)
 				stopsUnderLoad++
 				ok := restartNow()
+				logEvent("double-restart: replica restarted", h.Index)
 				// proposals made before the replica knows the leader are dropped at once; the first
 				// proposals that can stay pending are made while the log is still being replayed
 				waitFor(300*time.Millisecond, func() bool {
@@ -433,18 +456,23 @@ func runRequests(r *common.Run, sk *sink, caseNo int, rng *rand.Rand, seed int64
 			}
 		case 1:
 			if nh := h.NodeHost(); nh != nil {
+				logEvent("StopShard called", h.Index)
 				if err := nh.StopShard(shardID); err == nil {
+					logEvent("StopShard returned", h.Index)
 					stopsUnderLoad++
 					sk.Count("stop_shard_under_load", 1)
 					time.Sleep(time.Duration(20+rng.Intn(60)) * time.Millisecond)
 					cfg := cluster.ShardConfig(shardID, uint64(h.Index+1))
 					cfg.SnapshotEntries, cfg.CompactionOverhead = 50, 5
+					cfg.PreVote = preVote
 					_ = h.RestartReplica(members, kind, cfg)
 				}
 			}
 		case 2:
 			if h.NodeHost() != nil {
+				logEvent("NodeHost.Close called", h.Index)
 				h.Stop()
+				logEvent("NodeHost.Close returned", h.Index)
 				stopsUnderLoad++
 				sk.Count("host_close_under_load", 1)
 				time.Sleep(30 * time.Millisecond)
@@ -573,7 +601,18 @@ func runRequests(r *common.Run, sk *sink, caseNo int, rng *rand.Rand, seed int64
 		}
 		hist[rec.kind+":"+last]++
 		wit := map[string]interface{}{"case": caseNo, "kind": rec.kind, "host": rec.host, "timeout_ms": rec.timeoutMs, "results": results,
-			"notify_commit": notify, "id": rec.id, "released": rec.released}
+			"notify_commit": notify, "id": rec.id, "released": rec.released, "accept_stamp": rec.acceptAt, "accept_tick": rec.acceptTick}
+		if terminalsOf(results) == 0 {
+			evMu.Lock()
+			var near []opEvent
+			for _, e := range events {
+				if e.Host == rec.host {
+					near = append(near, e)
+				}
+			}
+			evMu.Unlock()
+			wit["operator_events_on_that_host"] = near
+		}
 		switch {
 		case terminals == 0:
 			sk.Violation("C12", "no-terminal-result:"+rec.kind,
@@ -635,4 +674,14 @@ func runRequests(r *common.Run, sk *sink, caseNo int, rng *rand.Rand, seed int64
 		r.Sample(map[string]interface{}{"case": caseNo, "notify_commit": notify, "store": store.String(), "sm": kind.String(),
 			"requests": len(all), "outcomes": hist, "expired_but_applied_later": expiredButApplied})
 	}
+}
+
+func terminalsOf(results []string) int {
+	n := 0
+	for _, c := range results {
+		if c != "committed" {
+			n++
+		}
+	}
+	return n
 }
